@@ -1,6 +1,8 @@
 """C18 - the const API (PARTIAL claim: const surface, no const/run-time divergence, UB-freedom obligations by cross-reference)."""
 
+import json
 import os
+import re
 import tempfile
 
 from ..core import PROVED, REFUTED, UNKNOWN, MISSING, VERIF
@@ -184,6 +186,41 @@ def check(ctx):
             for j, (at_, loc_, what) in enumerate(dangling_uses(a_)):
                 ctx.ob("C18.P", "%s#dangling#%d" % (bd["key"], j), REFUTED, what, at=at_, cfg=cfg)
         ctx.ob("C18.P", "sweep (%s)" % cfg, n_sw >= 10, "bodies with raw pointer operations swept for accesses to storage-dead locals: %d" % n_sw, cfg=cfg)
+        # C18.L: `len()` has no receiver - `GenericArray::<T, N>::len()` is promised "for every length", also for type-level lengths whose array
+        # could never exist (N * size_of::<T>() beyond the object-size bound). It must therefore not make the compiler lay the array type out:
+        # no size_of / align_of / Layout of a type that mentions GenericArray (or its storage) in len's body, in the crate functions it calls, or in
+        # the crate-local constants it evaluates (an associated const that asserts the layout turns `len()` into an error for such lengths)
+        lb = db.get(K + "len")
+        if lb is not None:
+            by_path = {x["path"]: x for x in db.bodies}
+            seen_, work_, bad_ = set(), [lb], []
+            while work_:
+                bd = work_.pop()
+                if bd["path"] in seen_:
+                    continue
+                seen_.add(bd["path"])
+                for blk in bd["mir"]["blocks"]:
+                    for st_ in blk["stmts"]:
+                        txt_ = json.dumps(st_)
+                        for m_ in re.finditer(r'"k": "uneval", "def": "([^"]+)"', txt_):
+                            if m_.group(1) in by_path:
+                                work_.append(by_path[m_.group(1)])
+                    t_ = blk["term"]
+                    if t_["k"] == "call" and t_["f"].get("k") == "fn":
+                        fd = t_["f"]["def"]
+                        ta_ = json.dumps([x for x in t_["f"].get("args", []) if x.get("k") != "region"])
+                        if fd in ("core::mem::size_of", "core::mem::align_of", "core::mem::size_of_val", "core::mem::align_of_val", "core::alloc::Layout::new", "core::alloc::Layout::for_value") \
+                                and ("GenericArray" in ta_ or "ArrayType" in ta_):
+                            bad_.append("%s in %s" % (fd.split("::")[-1], bd["path"]))
+                        cal = by_path.get(t_["f"].get("res") or fd) or by_path.get(fd)
+                        if cal is not None:
+                            work_.append(cal)
+                        txt_ = json.dumps(t_.get("args", []))
+                        for m_ in re.finditer(r'"k": "uneval", "def": "([^"]+)"', txt_):
+                            if m_.group(1) in by_path:
+                                work_.append(by_path[m_.group(1)])
+            ctx.ob("C18.L", K + "len", not bad_, "len() and the %d crate body(ies) / constant(s) it evaluates never ask for the layout of the array type (so it exists for lengths whose array cannot): %s" % (
+                len(seen_), "none does" if not bad_ else sorted(set(bad_))), at=lb["at"], cfg=cfg)
         # C18.H: the compile-time evaluator rejects an optimiser hint that is false (`assume called with false`, entering unreachable code), so in
         # every safe const fn (private helpers expanded) each hint - assert_unchecked(c) / `if !c { unreachable_unchecked() }` - must be one the
         # function's own path facts make true for every input; an unsafe const fn may rest its hints on its caller's contract
